@@ -4,6 +4,7 @@ CONSTANTS
   Keys = {k1}
   NW = 3
   MaxDeps = 3
+  OriginalOffset = FALSE
   MaxFail = 2
   Shapes <- ShapesAll
 INVARIANTS TypeOK NoOverlap QueueOrder AtMostOnce WaitOK
